@@ -375,11 +375,25 @@ def agent_run(params, obs):
                     th._bus_call(sim, 'A', hdl, path, type(hdl).send_bundle_data, 'send_bundle_data',
                                  (dbus.ByteArray(payload_for('A', idx * 7 + bidx, 6000 if params.get('asym') else 120)),))
         sim.run(params['mid_steps'])
+        if params.get('pre_terminate'):
+            # a contact is already terminating (its user asked for that) when the agent is told to shut down
+            for path in paths[:1]:
+                hdl = agents['A'].handler_for_path(path) if path in agents['A']._path_to_handler else None
+                if hdl is not None:
+                    try:
+                        th._bus_call(sim, 'A', hdl, path, type(hdl).terminate, 'terminate', (dbus.Byte(0),))
+                    except Exception:  # pylint: disable=broad-except
+                        pass
+            sim.run(params['pre_terminate'])
         conns = th._bus_call(sim, 'A', agents['A'], '/org/ietf/dtn/tcpcl/Agent', type(agents['A']).get_connections, 'get_connections', ())
         n_open_before = len(list(conns))
         shutdown_err = None
         try:
-            res = th._bus_call(sim, params['who'], agents[params['who']], '/org/ietf/dtn/tcpcl/Agent', type(agents['A']).shutdown, 'shutdown', ())
+            if params.get('stop'):
+                # the immediate way: every session of the agent is disconnected
+                res = th._bus_call(sim, params['who'], agents[params['who']], '/org/ietf/dtn/tcpcl/Agent', type(agents['A']).stop, 'stop', ())
+            else:
+                res = th._bus_call(sim, params['who'], agents[params['who']], '/org/ietf/dtn/tcpcl/Agent', type(agents['A']).shutdown, 'shutdown', ())
         except Exception as err:  # pylint: disable=broad-except
             shutdown_err = err
             res = None
@@ -407,8 +421,8 @@ def agent_run(params, obs):
             for name in ('A', 'B'):
                 if agents[name]._handlers:
                     states = [hdl._state for hdl in agents[name]._handlers]
-                    problems.append(('shutdown', 'world is quiescent after shutdown() of agent %s but agent %s still has %d open contact(s) in states %s' % (
-                        who, name, len(states), states)))
+                    problems.append(('shutdown', 'world is quiescent after %s of agent %s but agent %s still has %d open contact(s) in states %s' % (
+                        'stop()' if params.get('stop') else 'shutdown()', who, name, len(states), states)))
             if not stops[who]:
                 problems.append(('shutdown', 'agent %s never ran its stop callback after shutdown()' % who))
             opened = [ev for ev in sim.hist.events if ev['kind'] == 'signal' and ev['member'] == 'connection_opened' and ev['node'] == who]
@@ -418,7 +432,7 @@ def agent_run(params, obs):
             if opened_paths != closed_paths:
                 problems.append(('shutdown', 'agent %s: connection_opened for %s, connection_closed for %s' % (who, opened_paths, closed_paths)))
             # shutdown() is the graceful end of every session: whatever was started on any contact is finished exactly once
-            for (started, finished) in (('send_bundle_started', 'send_bundle_finished'), ('recv_bundle_started', 'recv_bundle_finished')):
+            for (started, finished) in () if params.get('stop') else (('send_bundle_started', 'send_bundle_finished'), ('recv_bundle_started', 'recv_bundle_finished')):
                 begun = {}
                 for ev in sim.hist.events:
                     if ev['kind'] == 'signal' and ev.get('exported', True) and ev['member'] in (started, finished):
@@ -576,6 +590,14 @@ def cases(tier, seed):
                     out.append(dict(id='agent-asym-%d-%s-%d-%s' % (contacts, who, asym, policy), kind='agent', contacts=contacts, who=who, pre_steps=60,
                                     mid_steps=25, bundles=1, asym=asym, seed=seed + contacts, policy=policy, stagger=0,
                                     stop_on_close=(policy == 'rr')))
+    for who in ('A', 'B'):
+        for steps in (1, 4, 12):
+            out.append(dict(id='agent-preterm-%s-%d' % (who, steps), kind='agent', contacts=2, who=who, pre_steps=60, mid_steps=25, bundles=1, asym=1,
+                            seed=seed + steps, policy='fair', stagger=0, pre_terminate=steps))
+    for who in ('A', 'B'):
+        for contacts in (1, 2, 3, 4):
+            out.append(dict(id='agent-stop-%s-%d' % (who, contacts), kind='agent', contacts=contacts, who=who, pre_steps=60, mid_steps=10, bundles=1,
+                            seed=seed + contacts, policy='fair', stagger=0, stop=True))
     # secured sessions: the parameters reported about them carry the identifiers taken from the peer certificate
     out.append(dict(id='tls-params', kind='tls-params'))
     out.append(dict(id='udp-benign', kind='udp', which='benign', seed=seed, mtu=None, sends=[10, 500]))
@@ -657,7 +679,7 @@ def run_case(case):
         note(peer_lengths_run(case['role'], case['total'], obs), 'peerlen', dict(role=case['role'], total=case['total']),
              'peerlen|%s|%s' % (case['role'], case['total']))
     elif case['kind'] == 'agent':
-        params = {k: case[k] for k in ('contacts', 'who', 'pre_steps', 'mid_steps', 'bundles', 'seed', 'policy', 'stagger', 'asym', 'stop_on_close') if k in case}
+        params = {k: case[k] for k in ('contacts', 'who', 'pre_steps', 'mid_steps', 'bundles', 'seed', 'policy', 'stagger', 'asym', 'stop_on_close', 'pre_terminate', 'stop') if k in case}
         note(agent_run(params, obs), 'agent', params, 'agent|%s' % sorted(params.items()))
     elif case['kind'] == 'tls-params':
         # the C15 harness (fake TLS layer, real certificates) drives sessions to 'established'; here only the types of what the
